@@ -1,9 +1,11 @@
 import Driver.Util
 import ClairModel.Model.Codec
+import ClairModel.Model.ReportJson
+import ClairModel.Model.Cpe
 import ClairModel.Gen.Enums
 
 namespace Driver.C17
-open ClairModel.Bytes ClairModel.Codec ClairModel.Gen.Enums
+open ClairModel.Bytes ClairModel.Codec ClairModel.Gen.Enums ClairModel.ReportJson
 
 def toBytes (s : String) : Option Bytes := (Driver.unhex s).map fun l => l.map (·.toNat)
 def hexB (b : Bytes) : String := Driver.hex (b.map fun n => UInt8.ofNat n)
@@ -42,8 +44,186 @@ def showDigest : Option Digest → String
 def showRecv (r : Option Digest × Bool) : String :=
   (if r.2 then "ok " else "err ") ++ showDigest r.1
 
+/-! ### JSON trees on the wire
+
+  value := `n` | `t` | `f` | `i<int>;` | `s<hex>;` | `[` value* `]` | `{` (<hex>`:` value)* `}` -/
+
+def hexNib (c : Char) : Option Nat := Driver.hexVal c
+
+/-- hex digits up to (not including) the terminator `stop` -/
+partial def takeHex (stop : Char) : List Char → List Nat → Option (Bytes × List Char)
+  | c :: r, acc =>
+    if c == stop then some (acc.reverse, r) else
+    match r with
+    | d :: r' =>
+      match hexNib c, hexNib d with
+      | some x, some y => takeHex stop r' ((x * 16 + y) :: acc)
+      | _, _ => none
+    | [] => none
+  | [], _ => none
+
+mutual
+partial def parseJ : List Char → Option (J × List Char)
+  | 'n' :: r => some (.null, r)
+  | 't' :: r => some (.bool true, r)
+  | 'f' :: r => some (.bool false, r)
+  | 'i' :: r =>
+    let num := r.takeWhile (· != ';')
+    match (String.ofList num).toInt? with
+    | some n => some (.num n, (r.dropWhile (· != ';')).drop 1)
+    | none => none
+  | 's' :: r => (takeHex ';' r []).map fun p => (.str p.1, p.2)
+  | '[' :: r => parseArr r []
+  | '{' :: r => parseObj r []
+  | _ => none
+partial def parseArr : List Char → List J → Option (J × List Char)
+  | ']' :: r, acc => some (.arr acc.reverse, r)
+  | cs, acc =>
+    match parseJ cs with
+    | some (j, r) => parseArr r (j :: acc)
+    | none => none
+partial def parseObj : List Char → List (Bytes × J) → Option (J × List Char)
+  | '}' :: r, acc => some (.obj acc.reverse, r)
+  | cs, acc =>
+    match takeHex ':' cs [] with
+    | some (k, r) =>
+      match parseJ r with
+      | some (j, r') => parseObj r' ((k, j) :: acc)
+      | none => none
+    | none => none
+end
+
+def parseTree (w : String) : Option J :=
+  match parseJ w.toList with
+  | some (j, []) => some j
+  | _ => none
+
+def hexRaw (b : Bytes) : String :=
+  String.ofList (b.flatMap fun n => [Driver.hexDigit (n / 16), Driver.hexDigit (n % 16)])
+
+def bytesLt : Bytes → Bytes → Bool
+  | [], [] => false
+  | [], _ :: _ => true
+  | _ :: _, [] => false
+  | a :: as, b :: bs => if a < b then true else if b < a then false else bytesLt as bs
+
+def insertSorted (p : Bytes × String) : List (Bytes × String) → List (Bytes × String)
+  | [] => [p]
+  | q :: t => if bytesLt p.1 q.1 then p :: q :: t else q :: insertSorted p t
+
+/-- canonical form: the wire grammar with object keys sorted -/
+partial def renderJ : J → String
+  | .null => "n"
+  | .bool true => "t"
+  | .bool false => "f"
+  | .num n => s!"i{n};"
+  | .str s => "s" ++ hexRaw s ++ ";"
+  | .arr xs => "[" ++ String.join (xs.map renderJ) ++ "]"
+  | .obj kv =>
+    let items := kv.foldl (fun acc p => insertSorted (p.1, renderJ p.2) acc) []
+    "{" ++ String.join (items.map fun p => hexRaw p.1 ++ ":" ++ p.2) ++ "}"
+
+/-! ### the leaf codecs of the driver: C19's WFN codec under marshaling.go's wrapper, and time as canonical RFC 3339 text -/
+
+abbrev W := ClairModel.Cpe.WFN
+
+def zeroWFN : W := List.replicate 11 ClairModel.Cpe.unsetValue
+
+def wfnCodec : LeafCodec W :=
+  ⟨zeroWFN, ClairModel.Cpe.marshalText, wfnUnmarshalText ClairModel.Cpe.unbind⟩
+
+def twoDigits (a b : Nat) (lo hi : Nat) : Bool :=
+  isDigit a && isDigit b && lo ≤ (a - 48) * 10 + (b - 48) && (a - 48) * 10 + (b - 48) ≤ hi
+
+/-- `YYYY-MM-DDTHH:MM:SS[.fraction without trailing zero]Z`, the form
+    `time.Time.MarshalJSON` prints for a UTC time (days up to 28 only: month
+    lengths are not modelled, the harness does not generate later days). -/
+def canonTime (s : Bytes) : Bool :=
+  match s with
+  | y1 :: y2 :: y3 :: y4 :: 45 :: m1 :: m2 :: 45 :: d1 :: d2 :: 84 :: h1 :: h2 :: 58 :: n1 :: n2 :: 58 :: s1 :: s2 :: rest =>
+    isDigit y1 && isDigit y2 && isDigit y3 && isDigit y4 && twoDigits m1 m2 1 12 && twoDigits d1 d2 1 28 &&
+    twoDigits h1 h2 0 23 && twoDigits n1 n2 0 59 && twoDigits s1 s2 0 59 &&
+    (rest == [90] ||
+      match rest with
+      | 46 :: fr =>
+        let digits := fr.take (fr.length - 1)
+        fr.getLast? == some 90 && digits.length ≥ 1 && digits.length ≤ 9 && digits.all isDigit &&
+          digits.getLast? != some 48
+      | _ => false)
+  | _ => false
+
+def zeroTime : Bytes := ofString "0001-01-01T00:00:00Z"
+
+def timeCodec : LeafCodec Bytes := ⟨zeroTime, some, fun _ s => if canonTime s then some s else none⟩
+
+def leaves : Leaves W Bytes :=
+  ⟨wfnCodec, timeCodec, severityCodec severityNameBytes severityIndex, archOpCodec archOpNameBytes archOpIndex⟩
+
+def showEnc : Option (Option J) → String
+  | none => "err"
+  | some none => "encerr"
+  | some (some j) => "ok " ++ renderJ j
+
+/-- decode a tree as the named Go type, re-encode, render canonically -/
+def jsRoundTrip (ty : String) (j0 : J) : String :=
+  -- `json.Unmarshal("null", &v)` is a no-op: the zero value, which is also what `{}` decodes to
+  let j := match j0 with | .null => J.obj [] | x => x
+  match ty with
+  | "pkg" => showEnc ((decPackage leaves j).map (encPackage leaves))
+  | "dist" => showEnc ((decDist leaves j).map (encDist leaves))
+  | "repo" => showEnc ((decRepo leaves j).map (encRepo leaves))
+  | "env" => showEnc ((decEnv j).map fun e => some (encEnv e))
+  | "range" => showEnc ((decRange j).map fun e => some (encRange e))
+  | "vuln" => showEnc ((decVuln leaves j).map (encVuln leaves))
+  | "ir" => showEnc ((decIR leaves j).map (encIR leaves))
+  | "vr" => showEnc ((decVR leaves j).map (encVR leaves))
+  | _ => "bad-op"
+
+def optStr : Option J → String
+  | none => "encerr"
+  | some j => renderJ j
+
+/-- one index record, canonically: package / distribution / repository as their JSON -/
+def showRecord (r : Record W) : String :=
+  optStr (encPackage leaves r.package) ++ "|" ++ optStr (encOptPtr (encDist leaves) r.dist) ++ "|" ++
+    optStr (encOptPtr (encRepo leaves) r.repo)
+
+def insertStr (s : String) : List String → List String
+  | [] => [s]
+  | t :: r => if s < t then s :: t :: r else t :: insertStr s r
+
+def recordsOf (j : J) : String :=
+  match decIR leaves j with
+  | none => "err"
+  | some ir =>
+    match indexRecords ir with
+    | none => "panic"
+    | some recs =>
+      let l := recs.foldl (fun acc r => insertStr (showRecord r) acc) []
+      s!"ok {recs.length} " ++ ",".intercalate l
+
 def answer (l : String) : String :=
   match Driver.words l with
+  | ["js", ty, w] => match parseTree w with
+      | some j => jsRoundTrip ty j
+      | none => "bad-op"
+  | ["recs", w] => match parseTree w with
+      | some j => recordsOf j
+      | none => "bad-op"
+  | ["wfn-scan", o, w] => match toBytes o, parseSrc w with
+      | some ot, some src =>
+        match wfnUnmarshalText ClairModel.Cpe.unbind zeroWFN ot with
+        | none => "bad-op"
+        | some old =>
+          match wfnScan ClairModel.Cpe.unbind old src with
+          | none => "err"
+          | some w' => match ClairModel.Cpe.marshalText w' with
+            | some t => "ok " ++ hexB t
+            | none => "ok invalid"
+      | _, _ => "bad-op"
+  | ["utf8", h] => match toBytes h with
+      | some b => hexB (toValidUTF8 b)
+      | none => "bad-op"
   | ["sev-scan", w] => match parseSrc w with
       | some src => showDec (enumScan (severityUnmarshal severityNameBytes severityIndex) severityIndex src)
       | none => "bad-op"
